@@ -9,10 +9,47 @@ set_option linter.unusedVariables false
 namespace NakenVerif.Msp430
 open NakenVerif.Generated.Msp430Dis NakenVerif.Generated.Msp430Asm Arch Asm Spec
 
+/-- What an accepted statement with a meaning `i` comes down to: one `case` of the switch on operands that mean
+    the operands of `i` (every alias expansion ends in the two-operand case), or a single fixed word. -/
+def CoreForm (ctx : Ctx) (ws : List (BitVec 16)) (i : Instr) : Prop :=
+  (∃ (op : Op2) (size : Nat) (bw : Bool) (o0 o1 : Operand) (r : Row) (sm : Src) (dm : Dst),
+      sizeBw size = some bw ∧ r.type = OP_TWO_OPERAND ∧ r.opcode = twoWord op.nibble false 0 0 0 0 ∧
+      rowAction ctx r size [o0, o1] = .ok ws ∧ srcMeaning bw o0 = some sm ∧ dstMeaning o1 = some dm ∧
+      i = .two op bw sm dm) ∨
+  (∃ (op : Op1) (size : Nat) (bw : Bool) (o0 : Operand) (r : Row) (sm : Src),
+      sizeBw size = some bw ∧ (op.wordOnly && bw) = false ∧ r.type = op1Type op ∧ r.opcode = oneWord op.field false 0 0 ∧
+      rowAction ctx r size [o0] = .ok ws ∧ srcMeaning bw o0 = some sm ∧ i = .one op bw sm) ∨
+  (ws = [0x1300] ∧ i = .reti) ∨
+  (∃ c t, i = .jump c t ∧ Arch.decode (ctx.address.truncate 16) ws = some (i, ws.length)) ∨
+  (∃ a ∈ aliases, a.operandCount = 0 ∧ ws = [a.opcode] ∧ Arch.decode (ctx.address.truncate 16) ws = some (i, ws.length))
+
+theorem coreForm_decode {ctx : Ctx} {ws : List (BitVec 16)} {i : Instr} (h : CoreForm ctx ws i) :
+    Arch.decode (ctx.address.truncate 16) ws = some (i, ws.length) := by
+  rcases h with ⟨op, size, bw, o0, o1, r, sm, dm, hbw, ht, ho, hr, hs, hd, rfl⟩ |
+    ⟨op, size, bw, o0, r, sm, hbw, hw, ht, ho, hr, hs, rfl⟩ | ⟨rfl, rfl⟩ | ⟨_, _, _, h⟩ | ⟨_, _, _, _, h⟩
+  · exact rowAction_two ctx r op ht ho size bw hbw o0 o1 ws sm dm hr hs hd
+  · exact rowAction_one ctx r op ht ho size bw hbw hw o0 ws sm hr hs
+  · rfl
+  · exact h
+  · exact h
+
+/-- a table row of type TWO_OPERAND reached with the operands `[a, b]` -/
+theorem two_form (ctx : Ctx) (name : String) (op : Op2) (size : Nat) (bw : Bool) (hbw : sizeBw size = some bw)
+    (hrow : rowIs name (twoWord op.nibble false 0 0 0 0) OP_TWO_OPERAND = true) (a b : Operand) (ws : List (BitVec 16))
+    (s : Src) (d : Dst) (hs : srcMeaning bw a = some s) (hd : dstMeaning b = some d)
+    (h : (match Asm.findRow name with
+          | none => Result.err
+          | some r => if size = 20 then Result.err else rowAction ctx r size [a, b]) = .ok ws) :
+    CoreForm ctx ws (.two op bw s d) := by
+  obtain ⟨r, hr, ho, ht⟩ := rowIs_spec hrow
+  rw [hr] at h
+  simp only [(sizeBw_bw hbw).2, if_false] at h
+  exact Or.inl ⟨op, size, bw, a, b, r, s, d, hbw, ht, ho, h, hs, hd, rfl⟩
+
 theorem encode_sound_two (ctx : Ctx) (s : Stmt) (op : Op2) (ws : List (BitVec 16)) (i : Instr)
     (hrow : specRowOK (s.mnemonic, .two op) = true)
     (hm : meaningK (.two op) s.size (optimizeOps ctx s.ops) = some i) (h : encode ctx s = .ok ws) :
-    Arch.decode (ctx.address.truncate 16) ws = some (i, ws.length) := by
+    CoreForm ctx ws i := by
   obtain ⟨bw, a, b, sm, dm, hbw, hops, hs, hd, rfl⟩ := meaningK_two hm
   rw [encode_eq ctx s (by rw [hops]; simp)] at h
   simp only [specRowOK, Bool.and_eq_true] at hrow
@@ -25,17 +62,17 @@ theorem encode_sound_two (ctx : Ctx) (s : Stmt) (op : Op2) (ws : List (BitVec 16
       rw [hcmd]; decide
     simp only [e.1, e.2.1, e.2.2.1, e.2.2.2, if_false, hcmd, if_true, hops, List.getD_cons_zero, List.getD_cons_succ,
       halt] at h
-    exact two_via_row ctx _ op s.size bw hbw hr a b ws sm dm hs hd h
+    exact two_form ctx _ op s.size bw hbw hr a b ws sm dm hs hd h
   · simp only [hsbb, Bool.false_eq_true, if_false, Bool.and_eq_true, Option.isNone_iff_eq_none, beq_iff_eq] at hal
     rw [aliasStep_none _ hal.1, hops] at h
     simp only [] at h
     rw [hal.2] at h
-    exact two_via_row ctx _ op s.size bw hbw hr a b ws sm dm hs hd h
+    exact two_form ctx _ op s.size bw hbw hr a b ws sm dm hs hd h
 
 theorem encode_sound_one (ctx : Ctx) (s : Stmt) (op : Op1) (ws : List (BitVec 16)) (i : Instr)
     (hrow : specRowOK (s.mnemonic, .one op) = true)
     (hm : meaningK (.one op) s.size (optimizeOps ctx s.ops) = some i) (h : encode ctx s = .ok ws) :
-    Arch.decode (ctx.address.truncate 16) ws = some (i, ws.length) := by
+    CoreForm ctx ws i := by
   obtain ⟨bw, a, sm, hbw, hops, hw, hs, rfl⟩ := meaningK_one hm
   rw [encode_eq ctx s (by rw [hops]; simp)] at h
   simp only [specRowOK, Bool.and_eq_true, Option.isNone_iff_eq_none] at hrow
@@ -43,12 +80,12 @@ theorem encode_sound_one (ctx : Ctx) (s : Stmt) (op : Op1) (ws : List (BitVec 16
   rw [aliasStep_none _ hal, hops] at h
   obtain ⟨r, hr, ho, ht⟩ := rowIs_spec hr
   simp only [hr, (sizeBw_bw hbw).2, if_false] at h
-  exact rowAction_one ctx r op ht ho s.size bw hbw hw a ws sm h hs
+  exact Or.inr (Or.inl ⟨op, s.size, bw, a, r, sm, hbw, hw, ht, ho, h, hs, rfl⟩)
 
 theorem encode_sound_jump (ctx : Ctx) (hp : ctx.pass1 = false) (ha : ctx.address &&& 1 = 0) (s : Stmt) (c : Cond)
     (ws : List (BitVec 16)) (i : Instr) (hrow : specRowOK (s.mnemonic, .jump c) = true)
     (hm : meaningK (.jump c) s.size (optimizeOps ctx s.ops) = some i) (h : encode ctx s = .ok ws) :
-    Arch.decode (ctx.address.truncate 16) ws = some (i, ws.length) := by
+    CoreForm ctx ws i := by
   obtain ⟨t, h0, hops, rfl⟩ := meaningK_jump hm
   rw [encode_eq ctx s (by rw [hops]; simp)] at h
   simp only [specRowOK, Bool.and_eq_true, Option.isNone_iff_eq_none] at hrow
@@ -56,12 +93,12 @@ theorem encode_sound_jump (ctx : Ctx) (hp : ctx.pass1 = false) (ha : ctx.address
   rw [aliasStep_none _ hal, hops] at h
   obtain ⟨r, hr, ho, ht⟩ := rowIs_spec hr
   simp only [hr, h0, show ¬ (0 = 20) by decide, if_false] at h
-  exact (rowAction_jump ctx hp ha r c ht ho t ws h).1
+  exact Or.inr (Or.inr (Or.inr (Or.inl ⟨c, _, rfl, (rowAction_jump ctx hp ha r c ht ho t ws h).1⟩)))
 
 theorem encode_sound_reti (ctx : Ctx) (s : Stmt) (ws : List (BitVec 16)) (i : Instr)
     (hrow : specRowOK (s.mnemonic, .reti) = true)
     (hm : meaningK .reti s.size (optimizeOps ctx s.ops) = some i) (h : encode ctx s = .ok ws) :
-    Arch.decode (ctx.address.truncate 16) ws = some (i, ws.length) := by
+    CoreForm ctx ws i := by
   obtain ⟨h0, hops, rfl⟩ := meaningK_reti hm
   rw [encode_eq ctx s (by rw [hops]; simp)] at h
   simp only [specRowOK, Bool.and_eq_true, Option.isNone_iff_eq_none] at hrow
@@ -70,7 +107,7 @@ theorem encode_sound_reti (ctx : Ctx) (s : Stmt) (ws : List (BitVec 16)) (i : In
   obtain ⟨r, hr, ho, ht⟩ := rowIs_spec hr
   simp only [hr, h0, show ¬ (0 = 20) by decide, if_false] at h
   rw [rowAction_none ctx r ht 0 ws h, ho]
-  rfl
+  exact Or.inr (Or.inr (Or.inl ⟨rfl, rfl⟩))
 
 theorem cmd_distinct : CMD_SP_INC ≠ CMD_PC ∧ CMD_SP_INC ≠ CMD_R3 ∧ CMD_SP_INC ≠ CMD_DST_DST ∧ CMD_PC ≠ CMD_SP_INC ∧
     CMD_PC ≠ CMD_R3 ∧ CMD_DST_DST ≠ CMD_SP_INC ∧ CMD_DST_DST ≠ CMD_PC ∧ CMD_DST_DST ≠ CMD_R3 := by decide
@@ -78,7 +115,7 @@ theorem cmd_distinct : CMD_SP_INC ≠ CMD_PC ∧ CMD_SP_INC ≠ CMD_R3 ∧ CMD_S
 theorem encode_sound_emuSrc (ctx : Ctx) (s : Stmt) (op : Op2) (n : BitVec 16) (ws : List (BitVec 16)) (i : Instr)
     (hrow : specRowOK (s.mnemonic, .emuSrc op n) = true)
     (hm : meaningK (.emuSrc op n) s.size (optimizeOps ctx s.ops) = some i) (h : encode ctx s = .ok ws) :
-    Arch.decode (ctx.address.truncate 16) ws = some (i, ws.length) := by
+    CoreForm ctx ws i := by
   obtain ⟨bw, a, hbw, hops⟩ := meaningK_emu1 (Or.inl ⟨op, n, rfl⟩) hm
   simp only [meaningK, hbw, hops] at hm
   split at hm
@@ -95,14 +132,14 @@ theorem encode_sound_emuSrc (ctx : Ctx) (s : Stmt) (op : Op2) (n : BitVec 16) (w
       simp only [c1, c2, c3, c4, c5, if_false, hops, List.getD_cons_zero, halt] at h
       have hs : srcMeaning bw (.imm (BitVec.ofInt 32 al.cmd)) = some (.imm (immOf bw n)) := by
         simp only [srcMeaning, hn]
-      exact two_via_row ctx _ op s.size bw hbw hr _ a ws _ d hs hd h
+      exact two_form ctx _ op s.size bw hbw hr _ a ws _ d hs hd h
     · cases hal
   · cases hm
 
 theorem encode_sound_emuDD (ctx : Ctx) (s : Stmt) (op : Op2) (ws : List (BitVec 16)) (i : Instr)
     (hrow : specRowOK (s.mnemonic, .emuDD op) = true)
     (hm : meaningK (.emuDD op) s.size (optimizeOps ctx s.ops) = some i) (h : encode ctx s = .ok ws) :
-    Arch.decode (ctx.address.truncate 16) ws = some (i, ws.length) := by
+    CoreForm ctx ws i := by
   obtain ⟨bw, a, hbw, hops⟩ := meaningK_emu1 (Or.inr (Or.inl ⟨op, rfl⟩)) hm
   simp only [meaningK, hbw, hops] at hm
   split at hm
@@ -115,13 +152,13 @@ theorem encode_sound_emuDD (ctx : Ctx) (s : Stmt) (op : Op2) (ws : List (BitVec 
     rw [aliasStep_expand _ ha (by rw [hc, hops]; rfl) (by rw [hc]; decide)] at h
     simp only [hcmd, cmd_distinct.2.2.2.2.2.1, cmd_distinct.2.2.2.2.2.2.1, cmd_distinct.2.2.2.2.2.2.2, if_false, if_true,
       hops, List.getD_cons_zero, halt] at h
-    exact two_via_row ctx _ op s.size bw hbw hr a a ws sm d hs hd h
+    exact two_form ctx _ op s.size bw hbw hr a a ws sm d hs hd h
   · cases hm
 
 theorem encode_sound_br (ctx : Ctx) (s : Stmt) (ws : List (BitVec 16)) (i : Instr)
     (hrow : specRowOK (s.mnemonic, .br) = true)
     (hm : meaningK .br s.size (optimizeOps ctx s.ops) = some i) (h : encode ctx s = .ok ws) :
-    Arch.decode (ctx.address.truncate 16) ws = some (i, ws.length) := by
+    CoreForm ctx ws i := by
   obtain ⟨bw, a, hbw, hops⟩ := meaningK_emu1 (Or.inr (Or.inr (Or.inl rfl))) hm
   simp only [meaningK, hbw, hops] at hm
   split at hm
@@ -133,13 +170,13 @@ theorem encode_sound_br (ctx : Ctx) (s : Stmt) (ws : List (BitVec 16)) (i : Inst
     obtain ⟨al, ha, hc, halt, hcmd, _⟩ := aliasIs_spec hal
     rw [aliasStep_expand _ ha (by rw [hc, hops]; rfl) (by rw [hc]; decide)] at h
     simp only [hcmd, cmd_distinct.2.2.2.1, if_false, if_true, hops, List.getD_cons_zero, halt] at h
-    exact two_via_row ctx _ .mov s.size bw hbw hr a (.reg 0) ws sm (.reg 0) hs rfl h
+    exact two_form ctx _ .mov s.size bw hbw hr a (.reg 0) ws sm (.reg 0) hs rfl h
   · cases hm
 
 theorem encode_sound_pop (ctx : Ctx) (s : Stmt) (ws : List (BitVec 16)) (i : Instr)
     (hrow : specRowOK (s.mnemonic, .pop) = true)
     (hm : meaningK .pop s.size (optimizeOps ctx s.ops) = some i) (h : encode ctx s = .ok ws) :
-    Arch.decode (ctx.address.truncate 16) ws = some (i, ws.length) := by
+    CoreForm ctx ws i := by
   obtain ⟨bw, a, hbw, hops⟩ := meaningK_emu1 (Or.inr (Or.inr (Or.inr rfl))) hm
   simp only [meaningK, hbw, hops] at hm
   split at hm
@@ -151,14 +188,20 @@ theorem encode_sound_pop (ctx : Ctx) (s : Stmt) (ws : List (BitVec 16)) (i : Ins
     obtain ⟨al, ha, hc, halt, hcmd, _⟩ := aliasIs_spec hal
     rw [aliasStep_expand _ ha (by rw [hc, hops]; rfl) (by rw [hc]; decide)] at h
     simp only [hcmd, if_true, hops, List.getD_cons_zero, halt] at h
-    exact two_via_row ctx _ .mov s.size bw hbw hr (.indirectInc 1) a ws (.indirectInc 1) d (by simp [srcMeaning]) hd h
+    exact two_form ctx _ .mov s.size bw hbw hr (.indirectInc 1) a ws (.indirectInc 1) d (by simp [srcMeaning]) hd h
   · cases hm
+
+theorem aliasOf_mem' {name : String} {a : Alias} (h : aliasOf name = some a) : a ∈ aliases ∧ a.instr = name := by
+  unfold aliasOf at h
+  have h1 := List.find?_some h
+  simp only [beq_iff_eq] at h1
+  exact ⟨List.mem_of_find?_eq_some h, h1⟩
 
 /-- no-operand emulated instructions (`clrc … nop`, `ret`): the fixed opcode of the alias row -/
 theorem encode_sound_emu0 (ctx : Ctx) (s : Stmt) (k : Kind) (hk : (∃ op n r, k = .emu0 op n r) ∨ k = .ret)
     (ws : List (BitVec 16)) (i : Instr) (hrow : specRowOK (s.mnemonic, k) = true)
     (hm : meaningK k s.size (optimizeOps ctx s.ops) = some i) (h : encode ctx s = .ok ws) :
-    Arch.decode (ctx.address.truncate 16) ws = some (i, ws.length) := by
+    CoreForm ctx ws i := by
   have hshape : s.size = 0 ∧ optimizeOps ctx s.ops = [] := by
     cases hbw : sizeBw s.size with
     | none => rcases hk with ⟨_, _, _, rfl⟩ | rfl <;> simp [meaningK, hbw] at hm
@@ -193,19 +236,14 @@ theorem encode_sound_emu0 (ctx : Ctx) (s : Stmt) (k : Kind) (hk : (∃ op n r, k
     unfold Arch.decode at hd
     simp only [hj, if_true, Option.map_some, Option.some.injEq, Prod.mk.injEq, and_true] at hd
     rcases hk with ⟨_, _, _, rfl⟩ | rfl <;> simp only [meaningK, sizeBw] at hm <;> simp at hm <;> rw [← hm] at hd <;> cases hd
+  refine Or.inr (Or.inr (Or.inr (Or.inr ⟨al, (aliasOf_mem' hal').1, hc, rfl, ?_⟩)))
   rw [decode_addr_indep _ _ hj, hd]
   rfl
 
-/-- **C01 (iii), MSP430 16-bit core.**  `ctx` is the state of pass 2 at the (even) address of the instruction,
-    with any pass-1 flag byte and `-optimize` on or off.  If the assembler model accepts the statement and the
-    user's guide gives the statement (after the `-optimize` rewrite of its first operand, see
-    `msp430_optimize_only_rewrites_index0`) a meaning, then the architecture's decoder reads the emitted words back
-    as exactly that instruction — operation, byte/word, source and destination operands with the constant
-    generators applied, symbolic operands and jump targets as addresses — and it uses all emitted words and no
-    more. -/
-theorem msp430_encode_sound (ctx : Ctx) (hp : ctx.pass1 = false) (ha : ctx.address &&& 1 = 0) (s : Stmt)
+/-- every accepted statement with a meaning is one of the core forms -/
+theorem encode_core_form (ctx : Ctx) (hp : ctx.pass1 = false) (ha : ctx.address &&& 1 = 0) (s : Stmt)
     (ws : List (BitVec 16)) (i : Instr) (hm : meaning (optimized ctx s) = some i) (h : encode ctx s = .ok ws) :
-    Arch.decode (ctx.address.truncate 16) ws = some (i, ws.length) := by
+    CoreForm ctx ws i := by
   unfold meaning at hm
   simp only [optimized] at hm
   split at hm
@@ -223,6 +261,18 @@ theorem msp430_encode_sound (ctx : Ctx) (hp : ctx.pass1 = false) (ha : ctx.addre
     | emu0 op n r => exact encode_sound_emu0 ctx s _ (Or.inl ⟨op, n, r, rfl⟩) ws i hrow hm h
     | ret => exact encode_sound_emu0 ctx s _ (Or.inr rfl) ws i hrow hm h
   · cases hm
+
+/-- **C01 (iii), MSP430 16-bit core.**  `ctx` is the state of pass 2 at the (even) address of the instruction,
+    with any pass-1 flag byte and `-optimize` on or off.  If the assembler model accepts the statement and the
+    user's guide gives the statement (after the `-optimize` rewrite of its first operand, see
+    `msp430_optimize_only_rewrites_index0`) a meaning, then the architecture's decoder reads the emitted words back
+    as exactly that instruction — operation, byte/word, source and destination operands with the constant
+    generators applied, symbolic operands and jump targets as addresses — and it uses all emitted words and no
+    more. -/
+theorem msp430_encode_sound (ctx : Ctx) (hp : ctx.pass1 = false) (ha : ctx.address &&& 1 = 0) (s : Stmt)
+    (ws : List (BitVec 16)) (i : Instr) (hm : meaning (optimized ctx s) = some i) (h : encode ctx s = .ok ws) :
+    Arch.decode (ctx.address.truncate 16) ws = some (i, ws.length) :=
+  coreForm_decode (encode_core_form ctx hp ha s ws i hm h)
 
 theorem optimizeOps_cases (ctx : Ctx) (ops : List Operand) :
     optimizeOps ctx ops = ops ∨
